@@ -205,7 +205,7 @@ PROPS = {
     "C03": sweep_prop(["C03."]),
     "C04": sweep_prop(["C04."]),
     "C08": sweep_prop(["C08."]),
-    "C09": sweep_prop(["C09.", "C01.reverse_data", "C01.ckpt_exists", "X.exception"], passes=3),
+    "C09": sweep_prop(["C09.", "X.exception"], passes=3),
     "C11": sweep_prop(["C11."]),
     "C12": sweep_prop(["C12."]),
 }
